@@ -73,7 +73,6 @@ Definition last_views (r : list cres) : list (Z * list vrow) :=
    j itself reports (FSM state, Master, instance states): a publication of j was lost on the way to i. With every
    link healed and every message delivered this only happens through the handshake window: publications of j received
    while i still holds j in CHECKING are discarded, and the state read by the handshake is older than them. *)
-Definition vrow_id (v : vrow) : Z := match v with (i, _, _, _, _) => i end.
 Definition view_matches (v : vrow) (o : cobs_node) : bool :=
   match v with (_, f, _, m, insts) => Z.eqb f (on_fsm o) && Z.eqb m (on_master o) && list_eqb zz_eqb insts (on_insts o) end.
 Definition stale_view (l : list cobs_node) (views : list (Z * list vrow)) : bool :=
